@@ -7,6 +7,7 @@ package universe
 import (
 	"context"
 	"fmt"
+	"path"
 	"regexp"
 	"strings"
 
@@ -183,7 +184,7 @@ func pinBelowShared(t *rapid.T, ix *Index, cfg GenConfig, m *Manifest, sel *sele
 	return ds
 }
 
-var verToken = regexp.MustCompile(`\d+\.\d+(?:\.\d+)?(?:-(?:alpha|beta|rc)(?:[.-]\d+)?)?`)
+var verToken = regexp.MustCompile(`\d+\.\d+(?:\.\d+)?(?:-(?:alpha|beta|rc)(?:[.-]?\d+)?|-SNAPSHOT|-M[1-9]\d*|\.Final|-jre)?`)
 
 // reqBaseIndex returns the index of the first version a requirement names among the versions
 // of the package, -1 when it names none of them.
@@ -708,4 +709,214 @@ func genLinkedAdvisories(t *rapid.T, ix *Index, cfg GenConfig, out []OSV) []OSV 
 	}
 	link(&out[i], &out[j], "linked.link")
 	return out
+}
+
+// Version styles of a Maven package with qualifier flavours (GenConfig.MavenFlavours).
+const (
+	styleSnapshot  = iota // x.y.z-SNAPSHOT before (or instead of) the release x.y.z
+	styleMilestone        // x.y.z-M1, -M2, -rc1, -rc2 (and sometimes -SNAPSHOT) before the release
+	styleFinal            // releases spelled x.y.z.Final, sometimes with -rcN / -SNAPSHOT before
+	styleJre              // releases spelled x.y.z-jre from some version on, or next to the plain release
+	styleMixed            // any of the forms per version
+	nStyles
+)
+
+// genVersionsStyled draws an ascending list of 1..maxN distinct Maven versions in one of the
+// styles above. The numeric triples advance as in genVersions; within one triple the forms are
+// emitted in Maven's order: alpha/beta < milestone < rc < SNAPSHOT < release (= .Final) < -jre.
+func genVersionsStyled(t *rapid.T, maxN int, label string) []Ver {
+	n := IntIn(t, 1, maxN, label+".n")
+	style := IntIn(t, 0, nStyles-1, label+".style")
+	if pct(t, label+".snapshotstyle") < 35 {
+		style = styleSnapshot
+	}
+	cur := Ver{Major: IntIn(t, 0, 2, label+".maj"), Minor: IntIn(t, 0, 3, label+".min"), Patch: IntIn(t, 0, 3, label+".pat")}
+	jreFrom := 0 // styleJre: index of the first triple whose release carries -jre
+	if style == styleJre && pct(t, label+".jrelater") < 50 {
+		jreFrom = IntIn(t, 1, 3, label+".jrefrom")
+	}
+	var out []Ver
+	for step := 0; len(out) < n; step++ {
+		base := cur
+		if base.Patch == 0 && pct(t, label+".short") < 30 {
+			base.Short = true
+		}
+		var forms []Ver // the forms of this triple, ascending
+		add := func(f Ver) { forms = append(forms, f) }
+		with := func(f func(*Ver)) Ver { v := base; f(&v); return v }
+		st := style
+		if st == styleMixed {
+			st = IntIn(t, 0, styleMixed-1, label+".mixed")
+		}
+		release := base
+		switch st {
+		case styleSnapshot:
+			if pct(t, label+".snap?") < 65 {
+				add(with(func(v *Ver) { v.Flav = FlavSnapshot }))
+			}
+			if len(forms) == 0 || pct(t, label+".rel?") < 65 {
+				add(release)
+			}
+		case styleMilestone:
+			if pct(t, label+".pre?") < 60 {
+				seq := []Ver{
+					with(func(v *Ver) { v.Flav, v.PreNum = FlavMilestone, 1 }),
+					with(func(v *Ver) { v.Flav, v.PreNum = FlavMilestone, 2 }),
+					with(func(v *Ver) { v.Pre, v.PreNum, v.Tight = 3, 1, true }),
+					with(func(v *Ver) { v.Pre, v.PreNum, v.Tight = 3, 2, true }),
+				}
+				from := IntIn(t, 0, len(seq)-1, label+".prefrom")
+				k := IntIn(t, 1, 3, label+".npre")
+				for i := from; i < len(seq) && i < from+k; i++ {
+					add(seq[i])
+				}
+				if pct(t, label+".snap?") < 25 {
+					add(with(func(v *Ver) { v.Flav = FlavSnapshot }))
+				}
+			}
+			if len(forms) == 0 || pct(t, label+".rel?") < 80 {
+				add(release)
+			}
+		case styleFinal:
+			if pct(t, label+".pre?") < 35 {
+				if pct(t, label+".prekind") < 50 {
+					add(with(func(v *Ver) { v.Pre, v.PreNum, v.Tight = IntIn(t, 1, 3, label+".pre"), IntIn(t, 1, 2, label+".prenum"), true }))
+				} else {
+					add(with(func(v *Ver) { v.Flav = FlavSnapshot }))
+				}
+			}
+			if len(forms) == 0 || pct(t, label+".rel?") < 85 {
+				add(with(func(v *Ver) { v.Flav = FlavFinal }))
+			}
+		case styleJre:
+			jre := with(func(v *Ver) { v.Flav = FlavJre })
+			switch {
+			case step < jreFrom:
+				add(release)
+			case pct(t, label+".both") < 25:
+				add(release)
+				add(jre)
+			default:
+				add(jre)
+			}
+		}
+		for _, f := range forms {
+			if len(out) < n {
+				out = append(out, f)
+			}
+		}
+		switch s := pct(t, label+".step"); {
+		case s < 50:
+			cur.Patch += IntIn(t, 1, 2, label+".dp")
+		case s < 80:
+			cur.Minor, cur.Patch = cur.Minor+IntIn(t, 1, 2, label+".dm"), 0
+		default:
+			cur.Major, cur.Minor, cur.Patch = cur.Major+1, 0, 0
+		}
+	}
+	return out
+}
+
+// Forms of a <parent> reference (how a pom of a chain points at the next one).
+const (
+	linkDefault    = iota // no <relativePath>: the parent is ../pom.xml
+	linkFile              // <relativePath>../pom.xml</relativePath>
+	linkDir               // <relativePath>..</relativePath> (a directory stands for its pom.xml)
+	linkSibling           // <relativePath>../<dir>/pom.xml</relativePath>
+	linkSiblingDir        // <relativePath>../<dir></relativePath>
+	linkSameDir           // <relativePath><name>-pom.xml</relativePath>: another file of the same directory
+	nLinkForms
+)
+
+// LinkFormName classifies a <parent> reference of a chain for class counters.
+func LinkFormName(from, rel, to string) string {
+	switch {
+	case rel == "":
+		return "default"
+	case path.Dir(from) == path.Dir(to):
+		return "same_directory"
+	case strings.HasSuffix(rel, ".xml") && path.Dir(path.Dir(from)) == path.Dir(to):
+		return "file_above"
+	case strings.HasSuffix(rel, ".xml"):
+		return "sibling_file"
+	case path.Dir(path.Dir(from)) == path.Dir(to):
+		return "directory_above"
+	}
+	return "sibling_directory"
+}
+
+// genPomChain turns the flat Maven manifest into a chain: one or two local parent poms above
+// it, in one of several directory layouts, the middle pom (and the manifest) mostly inheriting
+// groupId and/or version, and every requirement declared in one file of the chain (70% of them
+// in an ancestor). The effective requirement lists of the project stay what they were.
+func genPomChain(t *rapid.T, m *Manifest) {
+	depth := 1
+	if pct(t, "pomchain.depth2") < 60 {
+		depth = 2
+	}
+	c := &PomChain{Path: "ws/mod/app/pom.xml"}
+	// locations, bottom up
+	from := c.Path
+	names := []string{"parent", "root"}
+	for i := 0; i < depth; i++ {
+		var rel, to string
+		dir := path.Dir(from)
+		switch IntIn(t, 0, nLinkForms-1, fmt.Sprintf("pomchain.link%d", i)) {
+		case linkDefault:
+			rel, to = "", path.Join(dir, "../pom.xml")
+		case linkFile:
+			rel, to = "../pom.xml", path.Join(dir, "../pom.xml")
+		case linkDir:
+			rel, to = "..", path.Join(dir, "../pom.xml")
+		case linkSibling:
+			rel = "../" + names[i] + "/pom.xml"
+			to = path.Join(dir, rel)
+		case linkSiblingDir:
+			rel = "../" + names[i]
+			to = path.Join(dir, rel, "pom.xml")
+		default:
+			rel = names[i] + "-pom.xml"
+			to = path.Join(dir, rel)
+		}
+		if i == 0 {
+			c.ParentRel = rel
+		} else {
+			c.Ancestors[i-1].ParentRel = rel
+		}
+		c.Ancestors = append(c.Ancestors, PomAncestor{Path: to, Artifact: "verif-" + names[i]})
+		from = to
+	}
+	// coordinates, top down: the topmost pom declares both; the others mostly inherit
+	top := &c.Ancestors[depth-1]
+	top.Group, top.Version = "org.verif.top", "7.0.0"
+	if depth == 2 {
+		mid := &c.Ancestors[0]
+		if pct(t, "pomchain.mid.group") >= 55 {
+			mid.Group = "org.verif.mid"
+		}
+		if pct(t, "pomchain.mid.version") >= 55 {
+			mid.Version = "3.1.0"
+		}
+	}
+	c.OmitGroup = pct(t, "pomchain.app.group") < 40
+	c.OmitVersion = pct(t, "pomchain.app.version") < 40
+	pg, pv := c.Coordinates(0)
+	if c.OmitGroup {
+		_, a, _ := strings.Cut(m.Name, ":")
+		m.Name = pg + ":" + a
+	}
+	if c.OmitVersion {
+		m.Version = pv
+	}
+	place := func(rs []Requirement, lbl string) {
+		for i := range rs {
+			rs[i].Level = 0
+			if pct(t, fmt.Sprintf("pomchain.%s%d.up", lbl, i)) < 70 {
+				rs[i].Level = IntIn(t, 1, depth, fmt.Sprintf("pomchain.%s%d.level", lbl, i))
+			}
+		}
+	}
+	place(m.Deps, "dep")
+	place(m.Management, "mgmt")
+	m.Chain = c
 }
